@@ -20,11 +20,12 @@ import re
 from core import *
 from dataflow import *
 from cfgq import *
+from absint import Walker, UNKNOWN, pkey, show
 
 LEVEL = 'other'
 EXPLANATION = __doc__
 ASSUMPTIONS = ['std::io::_print writes to stdout and _eprint to stderr; process::exit(n) terminates with status n']
-FLOORS = {'X.exit-table': 3, 'S.stream-table': 6, 'R.run-flow': 10, 'A.argv0': 6, 'W.who': 12, 'N.non-empty': 17, 'U.usage-fallback': 1}
+FLOORS = {'X.exit-table': 3, 'S.stream-table': 6, 'R.run-flow': 10, 'A.argv0': 6, 'W.who': 12, 'N.non-empty': 17, 'U.usage-fallback': 1, 'K.completion-marker': 1}
 
 EXIT_TABLE = {
     'info::OptionParser::<T>::run': 'documented: print the failure and exit with its code',
@@ -51,12 +52,47 @@ def run(ctx):
         fs = ctx.facts(cfg)
         ctx.guard(exit_table, ctx, cfg, fs)
         ctx.guard(stream_table, ctx, cfg, fs)
+        ctx.guard(completion_marker, ctx, cfg, fs)
         ctx.guard(run_flow, ctx, cfg, fs)
         ctx.guard(argv0, ctx, cfg, fs)
         ctx.guard(who, ctx, cfg, fs)
         ctx.guard(nonempty, ctx, cfg, fs)
         import c10
         ctx.guard(c10.usage_fallback, ctx, cfg, fs.one(r'^info::OptionParser::<T>::run_subparser$'), 'U.usage-fallback')
+
+def completion_marker(ctx, cfg, fs):
+    """run() knows the program name (argv[0]); run_inner in tests usually does not.  The completion marker
+    `--bpaf-complete-rev=N` must be recognised in both situations, or a real process answers a completion request
+    with a parse error on stderr while run_inner predicts completion output."""
+    cands = fs.find(r'complete_run::.*ArgScanner.*check_next$', required=False)
+    if not cands:
+        ctx.ob('K.completion-marker', 'check_next:absent', True, 'built without completion support: no marker scanner', cfg=cfg, nontrivial=False)
+        return
+    b = ctx.look(cands[0])
+    def cm(w, c, store):
+        if c.is_(r'OsStr::to_str$'):
+            return ('agg', 'std::option::Option', 'Some', [UNKNOWN])
+        consts = [r.what for a in c.args for r in provenance(b, a, c.bb, 'term') if r.kind == 'const' and isinstance(r.what, str)]
+        if c.is_(r'PartialEq.*>::eq$', r'str::<impl str>::(starts_with)$') and any(x.startswith('--bpaf-complete-style-') for x in consts):
+            return ('c', False)
+        if c.is_(r'str::<impl str>::strip_prefix') and any(x == '--bpaf-complete-rev=' for x in consts):
+            return ('agg', 'std::option::Option', 'Some', [UNKNOWN])
+        return None
+    cm.first = True
+    w = Walker(b, call_model=cm, max_paths=400)
+    paths = w.run()
+    rets = sorted({show(p_.ret) if p_.end == 'return' else p_.end for p_ in paths})
+    wrote = [p_ for p_ in paths if any('revision' in pl for (_, pl, _) in p_.writes)]
+    name_forks = set()
+    for p_ in paths:
+        for (fb, o) in p_.forks:
+            sw_ = Switch(b, fb)
+            if sw_.kind == 'enum' and any(q.kind == 'param' and q.what == 'self' and 'name' in q.path for q in provenance(b, sw_.place, sw_.discr_site[0], sw_.discr_site[1], through=None)):
+                name_forks.add(o)
+    ok = rets == ['True'] and bool(wrote) and name_forks >= {'Some', 'None'}
+    ctx.ob('K.completion-marker', 'check_next:rev-marker-recognised-with-and-without-name', ok,
+           'for an item `--bpaf-complete-rev=...` (not a style marker) check_next returns %s on all %d paths, with the program name %s; the revision is recorded on %d path(s)' % (
+               rets, len(paths), sorted(name_forks), len(wrote)), where=b.where(), cfg=cfg)
 
 def exit_table(ctx, cfg, fs):
     b = ctx.look(fs.one(r'^error::ParseFailure::exit_code$'))
@@ -81,18 +117,46 @@ def arm_blocks(body, sw, variant):
 def stream_table(ctx, cfg, fs):
     b = ctx.look(fs.one(r'^error::ParseFailure::print_message$'))
     sw = [s for s in switches(b) if s.kind == 'enum' and s.enum == 'error::ParseFailure']
-    if len(sw) != 1:
-        raise Broken('print_message: expected one switch on ParseFailure, got %d' % len(sw))
-    sw = sw[0]
-    arms = {v: arm_blocks(b, sw, v) for v in ('Stdout', 'Completion', 'Stderr')}
+    if not sw:
+        raise Broken('print_message: no switch on ParseFailure')
+    # one abstract walk per variant of *self (every switch on it is decided, unknown conditions fork): the blocks
+    # visited are that variant's arm however the match is written (one match, a hoisted `matches!`, early returns)
+    selfkey = pkey(sw[0].place)
+    walks = {}
+    for v in ('Stdout', 'Completion', 'Stderr'):
+        w = Walker(b, variant_of={selfkey: v}, max_paths=400)
+        walks[v] = [p_ for p_ in w.run() if p_.end == 'return']
+        if not walks[v]:
+            raise Broken('print_message: no path for %s' % v)
+    arms = {v: set().union(*[set(p_.blocks) for p_ in ps]) for v, ps in walks.items()}
     shared = arms['Stdout'] & arms['Completion'] & arms['Stderr']
+    # the short/full switch handed to render_console, per variant and path
+    for v, ps in walks.items():
+        vals = set()
+        for p_ in ps:
+            for (blk, c), av in zip(p_.calls, p_.callvals):
+                if c.is_(r'render_console$'):
+                    a1 = av[1] if len(av) > 1 else UNKNOWN
+                    if a1 is not UNKNOWN and a1[0] == 'c':
+                        if v == 'Stdout':
+                            # a constant here must be the payload's own flag: the outcome this path took at the test of it
+                            took = [o for (fb, o) in p_.forks if any(q.kind == 'param' and q.what == 'self' and q.path[-2:] == ['as Stdout', '1'] for q in Switch(b, fb).roots)]
+                            vals.add('payload flag' if took and all(bool(o) == a1[1] for o in took) else 'constant %s' % a1[1])
+                        else:
+                            vals.add('constant %s' % a1[1])
+                    else:
+                        rs = provenance(b, c.args[1], c.bb, 'term')
+                        vals.add('payload flag' if rs and all(q.kind == 'param' and q.what == 'self' and q.path[-2:] == ['as Stdout', '1'] for q in rs) else 'other: %s' % sorted('%s:%s' % (q.kind, q.what) for q in rs))
+        want_full = {'Stdout': {'payload flag'}, 'Stderr': {'constant True'}, 'Completion': set()}[v]
+        ctx.ob('S.stream-table', 'print_message:%s:full-switch' % v, vals == want_full,
+               'print_message(%s) renders with full = %s (expected %s: help honours its own short/full flag, errors are always printed in full)' % (v, sorted(vals) or 'nothing rendered', sorted(want_full) or 'nothing rendered'), where=b.where(), cfg=cfg)
     want = {'Stdout': 'std::io::_print', 'Completion': 'std::io::_print', 'Stderr': 'std::io::_eprint'}
     sites = {s.bb: s for s in fmt_sites(b)}
     for v, blocks in arms.items():
         own = blocks - shared
         prints = sorted({c.name for x in own for c in [b.call_at(x)] if c and c.is_(r'^std::io::_e?print$')})
         ctx.ob('S.stream-table', 'print_message:%s:stream' % v, prints == [want[v]],
-               'print_message(%s) prints with %s (expected %s)' % (v, prints, want[v]), where=b.where(sw.target(v)), cfg=cfg)
+               'print_message(%s) prints with %s (expected %s)' % (v, prints, want[v]), where=b.where(), cfg=cfg)
         # what is printed
         pcs = [c for x in own for c in [b.call_at(x)] if c and c.is_(r'^std::io::_e?print$')]
         for pc in pcs:
@@ -119,10 +183,6 @@ def stream_table(ctx, cfg, fs):
                         wdesc = ';'.join(sorted('%s:%s' % (q.kind, q.what) for q in width))
                         ddesc = ';'.join(sorted('%s.%s' % (q.what, '.'.join(q.path)) for q in doc))
                         descr.append('render_console(doc=%s, full=%s, width=%s)' % (ddesc, fdesc, wdesc))
-                        if v == 'Stdout':
-                            good &= all(q.kind == 'param' and q.path == ['as Stdout', '1'] for q in full)
-                        else:
-                            good &= all(q.kind == 'const' and q.what is True for q in full)
                         good &= all(q.kind == 'param' and q.what == 'max_width' for q in width)
                         good &= all(q.kind == 'param' and q.what == 'self' and q.path[:1] == ['as ' + v] for q in doc)
                     elif r.kind == 'param' and r.what == 'self':
